@@ -159,7 +159,7 @@ func runC15(c *Ctx) {
 					return false, false
 				})
 				g, _ := Guarded(cl.Blocks[0], in, pass, nil)
-				c.Check(g && len(pass) > 0, "R4", "retry-after-preferred-when-set", p.InstrPos(in), "the server's time is used exactly when one was recorded", "the recorded Retry-After time is used without testing that one was recorded")
+				c.Check(g && nonVacuous(pass), "R4", "retry-after-preferred-when-set", p.InstrPos(in), "the server's time is used exactly when one was recorded", "the recorded Retry-After time is used without testing that one was recorded")
 			}
 		}
 	}
@@ -210,7 +210,7 @@ func runC15(c *Ctx) {
 			}
 			pass := budget(m.enq)
 			g, path := Guarded(entry, in, pass, m.noret)
-			c.Check(g && len(pass) > 0, "R2", fmt.Sprintf("retry-needs-budget:enqueue#%d", nRetrySites), p.InstrPos(in), "a retry is scheduled only after the object's retry budget allowed it", "an object can be scheduled for retry without its retry budget having been consulted: "+path)
+			c.Check(g && nonVacuous(pass), "R2", fmt.Sprintf("retry-needs-budget:enqueue#%d", nRetrySites), p.InstrPos(in), "a retry is scheduled only after the object's retry budget allowed it", "an object can be scheduled for retry without its retry budget having been consulted: "+path)
 		}
 	}
 	c.AtLeast("R2", "retry scheduling sites in the batch function", nRetrySites, 3)
@@ -223,7 +223,7 @@ func runC15(c *Ctx) {
 			nSend++
 			pass := budget(m.htr)
 			g, path := Guarded(m.htr.Blocks[0], in, pass, m.noret)
-			c.Check(g && len(pass) > 0, "R2", fmt.Sprintf("retry-needs-budget:result#%d", nSend), p.InstrPos(in), "an adapter result is sent for retry only after the object's retry budget allowed it", "a failed transfer can be sent for retry without the object's retry budget having been consulted (an endlessly failing object is retried for ever and Wait() never returns): "+path)
+			c.Check(g && nonVacuous(pass), "R2", fmt.Sprintf("retry-needs-budget:result#%d", nSend), p.InstrPos(in), "an adapter result is sent for retry only after the object's retry budget allowed it", "a failed transfer can be sent for retry without the object's retry budget having been consulted (an endlessly failing object is retried for ever and Wait() never returns): "+path)
 		}
 	}
 	c.AtLeast("R2", "retry sends in handleTransferResult", nSend, 2)
@@ -250,7 +250,7 @@ func runC15(c *Ctx) {
 				continue
 			}
 			g, path := Guarded(fn.Blocks[0], r, pass, nil)
-			c.Check(g && len(pass) > 0, "R2", name+":refuses-when-exhausted", p.InstrPos(r), "a positive answer requires the counter to allow another retry", name+" can allow a retry although the retry counter is exhausted: "+path)
+			c.Check(g && nonVacuous(pass), "R2", name+":refuses-when-exhausted", p.InstrPos(r), "a positive answer requires the counter to allow another retry", name+" can allow a retry although the retry counter is exhausted: "+path)
 		}
 	}
 	if cr := p.Fn("tq", "(*retryCounter).CanRetry"); cr != nil {
@@ -360,7 +360,7 @@ func runC15(c *Ctx) {
 						}
 						return false, false
 					})
-					if g, _ := Guarded(lp.Body, cc, pass, nil); g && len(pass) > 0 {
+					if g, _ := Guarded(lp.Body, cc, pass, nil); g && nonVacuous(pass) {
 						good = true
 					} else {
 						good = false
@@ -408,7 +408,7 @@ func runC15(c *Ctx) {
 				continue
 			}
 			g, path := Guarded(get.Blocks[0], r, pass, nil)
-			c.Check(g && len(pass) > 0, "R5", "ActionSet.Get:not-expired", p.InstrPos(r), "an action is handed out only when it is not (about to be) expired", "an expired action can be handed out: "+path)
+			c.Check(g && nonVacuous(pass), "R5", "ActionSet.Get:not-expired", p.InstrPos(r), "an action is handed out only when it is not (about to be) expired", "an expired action can be handed out: "+path)
 		}
 	} else {
 		c.Missing("R5", "(tq.ActionSet).Get", "not found")
@@ -464,7 +464,7 @@ func runC15(c *Ctx) {
 					return false, false
 				})
 				g, path := Guarded(add.Blocks[0], in, pass, nil)
-				c.Check(g && len(pass) > 0, "R6", "incoming-only-first-seen", p.InstrPos(in), "an object is enqueued only the first time its OID is added", "an OID that is already known to the queue can be enqueued again: two transfers of the same object could run at once: "+path)
+				c.Check(g && nonVacuous(pass), "R6", "incoming-only-first-seen", p.InstrPos(in), "an object is enqueued only the first time its OID is added", "an OID that is already known to the queue can be enqueued again: two transfers of the same object could run at once: "+path)
 			}
 		}
 	}
